@@ -215,6 +215,8 @@ type Rule struct {
 	WhereSrc string
 	Extra    string // appended after Report(...), e.g. `.At(m["x"])`
 	Report   string // report template; default: the group name
+	// Locals is placed at the top of the group function's body (local constant declarations, local macro functions)
+	Locals string
 }
 
 const RulesHeader = "package gorules\n\nimport (\n\t\"github.com/quasilyte/go-ruleguard/dsl\"\n\t\"github.com/quasilyte/go-ruleguard/dsl/types\"\n)\n\nvar _ = types.Identical\n\n"
@@ -225,7 +227,11 @@ func RulesFile(prelude string, rules []Rule) string {
 	sb.WriteString(RulesHeader)
 	sb.WriteString(prelude)
 	for _, r := range rules {
-		fmt.Fprintf(&sb, "\nfunc %s(m dsl.Matcher) {\n\tm.Match(`%s`)", r.Name, r.Pattern)
+		fmt.Fprintf(&sb, "\nfunc %s(m dsl.Matcher) {\n", r.Name)
+		if r.Locals != "" {
+			sb.WriteString(r.Locals)
+		}
+		fmt.Fprintf(&sb, "\tm.Match(`%s`)", r.Pattern)
 		w := r.WhereSrc
 		if w == "" && r.Where != nil {
 			w = r.Where.Go()
@@ -250,6 +256,16 @@ func Load(fset *token.FileSet, src string) (e *ruleguard.Engine, err error) {
 		}
 	}()
 	return hutil.LoadEngine(fset, map[string]string{"rules.go": src}, []string{"rules.go"})
+}
+
+// LoadFiles loads several rules files, in order, into one fresh engine.
+func LoadFiles(fset *token.FileSet, names []string, srcs map[string]string) (e *ruleguard.Engine, err error) {
+	defer func() {
+		if r := recover(); r != nil {
+			err = fmt.Errorf("load panic: %v", r)
+		}
+	}()
+	return hutil.LoadEngine(fset, srcs, names)
 }
 
 // ---------------------------------------------------------------- probe sites
